@@ -4,6 +4,14 @@ import json, os
 HERE = os.path.dirname(os.path.dirname(os.path.abspath(__file__)))
 
 CHECKS = {
+ 'C01': dict(level='exploration', ref='3/C01',
+   technique='seeded bind/call/observe histories against an executable reference model (prefix overlay + caller-wins rule), with calls of an epoch issued from 2-3 simulated threads under a seeded scheduler',
+   text='Each run generates probes of every callable shape (function, class via __init__/__new__, method; positional, defaulted, keyword-only, *args, **kwargs; all three registration APIs), a bind history over scopes named so that one is a textual prefix of another, and calls with every split of parameters into positional / keyword / omitted reached directly, through get_configurable (object, name, scoped name) or instantiation; the body\'s recorded arguments, caller-object identity and scope at entry are compared with the model at every call, get_bindings/query_parameter at every observation. Sampled histories; evidence, not proof.',
+   note='Binds never race with calls (gin promises nothing there); literal bound values only (references: C04, macros: C05, REQUIRED: C10).'),
+ 'C10': dict(level='exploration', ref='3/C10',
+   technique='seeded bind/call histories with gin.REQUIRED placements against the executable reference model (rule A4), fault = absent binding with effect ordering (call must fail before the body runs); rejected registrations checked for atomicity',
+   text='Same engine as C01 with REQUIRED markers as signature defaults (any position) and passed by the caller positionally / by keyword / for **kwargs names / into *args, every subset of marked parameters bound (incl. falsy values) at root or under scopes; the oracle demands the bound value in the marked position, never the marker, or RuntimeError naming the configurable and exactly the unfilled names in signature order with the body not run, ValueError for markers among unnamed variadics, and rejected registrations that leave nothing registered. No interleaving is involved (stated in DESIGN 3/C10).',
+   note='Sampled histories; single caller thread.'),
  'C17': dict(level='fault_enumeration', ref='3/C17',
    technique='exception-fault enumeration: every concrete builtin exception class (canonical arguments) and 15 generated user-class shapes injected at a sampled site (body, __init__, __new__, evaluated reference, macro-held reference, singleton constructor, scoped wrapper) and nesting depth 1-4; caught object compared with the original',
    text='Each run fixes a site / depth / scope plan and injects the whole catalogue there (82 classes); the caught object must be of the original class (and caught by every base), have equal args and every public non-callable attribute, a traceback containing the raising frame and every intermediate configurable frame, and a message that starts with the original and names every configurable level innermost-first with its active scope; non-Exception BaseExceptions must arrive as the identical object. Exhaustive over the catalogue per plan; plans are sampled (7 sites x depth 1-4 x scopes x callable kinds).',
